@@ -37,7 +37,9 @@ static json_object *gen_val(int depth)
 	case 1: return json_object_new_int((int)vh_below(5));
 	case 2: return json_object_new_string(vh_below(2) ? "s" : "");
 	case 3: return json_object_new_boolean((int)vh_below(2));
-	case 4: return json_object_new_int64((int64_t)vh_below(3) - 1);
+	case 4: return vh_below(3) ? json_object_new_int64((int64_t)vh_below(3) - 1)
+	                           /* numbers that are not integers by kind: k.0 (numerically an integer) and k.5 */
+	                           : json_object_new_double((double)vh_below(5) + (vh_below(2) ? 0.5 : 0.0));
 	case 5: case 6:
 	{
 		json_object *a = json_object_new_array();
@@ -213,7 +215,16 @@ static json_object *gen_patch(json_object *doc, int nops)
 			rand_path(work, p, 0);
 			json_object *at = NULL, *val = NULL;
 			if (vh_below(2) && json_pointer_get(work, p, &at) == 0)
-				json_object_deep_copy(at, &val, NULL);
+			{
+				/* the value that is there - a number now and then in its other spelling (RFC 6902 4.6: numbers are equal
+				 * if numerically equal): 2 for 2.0, 2.0 for 2 */
+				if (json_object_is_type(at, json_type_int) && vh_below(2) && json_object_get_int64(at) > -100 && json_object_get_int64(at) < 100)
+					val = json_object_new_double((double)json_object_get_int64(at));
+				else if (json_object_is_type(at, json_type_double) && vh_below(2) && json_object_get_double(at) == (double)(int)json_object_get_double(at))
+					val = json_object_new_int((int)json_object_get_double(at));
+				else
+					json_object_deep_copy(at, &val, NULL);
+			}
 			else
 				val = gen_val(1);
 			op = mkop("test", p, NULL, val, 1);
